@@ -64,6 +64,11 @@ def generate(rng, cfg: Dict) -> Dict:
                 bases.append(other)
         module = "b" if (two_modules and c.chance(0.4)) else "a"
         fields = []
+        role_of = None
+        if earlier and not bases and c.chance(0.2):
+            # the Role design pattern: class Di(Role[Dj]) with a required field of exactly type Dj (the role taker)
+            role_of = c.pick(earlier)
+            fields.append({"name": f"taker{i}", "kind": "one_to_one", "target": role_of, "as_string": c.chance(0.3), "required": True})
         for j in range(c.int(0, 4)):
             kind = c.weighted([("builtin", 2), ("opt_builtin", 1.5), ("enum", 1), ("opt_enum", 0.7), ("list_builtin", 1.5), ("one_to_one", 3), ("opt_one", 2.5), ("one_to_many", 3), ("type_valued", 1.5), ("private", 1.2)])
             f = {"name": f"f{i}_{j}", "kind": kind, "as_string": c.weighted([(False, 5), (True, 3), ("inner", 2)])}
@@ -79,7 +84,7 @@ def generate(rng, cfg: Dict) -> Dict:
                     f["name"] = "_" + f["name"]
                     f["inner"] = c.pick(["one_to_one", "one_to_many", "opt_one"])
             fields.append(f)
-        classes.append({"name": name, "bases": bases, "module": module, "fields": fields})
+        classes.append({"name": name, "bases": bases, "module": module, "fields": fields, "role_of": role_of})
     # a reference written as a real expression must point to a class defined earlier in the same module
     index = {cl["name"]: k for k, cl in enumerate(classes)}
     for k, cl in enumerate(classes):
@@ -89,6 +94,9 @@ def generate(rng, cfg: Dict) -> Dict:
                 f["as_string"] = True
         # bases must be importable: keep bases in the same module
         cl["bases"] = [b for b in cl["bases"] if classes[index[b]]["module"] == cl["module"]]
+        if cl.get("role_of") and classes[index[cl["role_of"]]]["module"] != cl["module"]:
+            cl["role_of"] = None
+            cl["fields"] = [f for f in cl["fields"] if not f.get("required")]
     # MRO sanity for two bases: drop the second if it is an ancestor/descendant of the first
     def ancestors(nm):
         out = set()
@@ -166,6 +174,8 @@ def source_of(scenario: Dict, module: str) -> str:
     lines += ["from dataclasses import dataclass, field", "from typing import Optional, List, Set, Tuple, Type", "import enum"]
     if scenario.get("symbol_family"):
         lines.append("from krrood.entity_query_language.predicate import Symbol")
+    if any(cl.get("role_of") for cl in scenario["classes"]):
+        lines.append("from krrood.class_diagrams.utils import Role")
     lines += ["", "class Color(enum.Enum):", "    RED = 1", "    BLUE = 2", "",
               "class Level(enum.IntEnum):", "    RED = 1", "    HIGH = 2", "",
               "class Tone(str, enum.Enum):", "    RED = 'r'", "    DARK = 'd'", ""]
@@ -175,13 +185,18 @@ def source_of(scenario: Dict, module: str) -> str:
         bases = list(cl["bases"])
         if scenario.get("symbol_family") and not bases:
             bases = ["Symbol"]
+        if cl.get("role_of"):
+            bases = [f"Role[{cl['role_of']}]"] + bases
         head = f"class {cl['name']}({', '.join(bases)}):" if bases else f"class {cl['name']}:"
         lines.append("@dataclass(eq=False)")
         lines.append(head)
         if not cl["fields"]:
             lines.append("    pass")
         for f in cl["fields"]:
-            lines.append(f"    {f['name']}: {annotation(f)} = {default_of(f)}")
+            if f.get("required"):
+                lines.append(f"    {f['name']}: {annotation(f)}")
+            else:
+                lines.append(f"    {f['name']}: {annotation(f)} = {default_of(f)}")
         lines.append("")
     return "\n".join(lines)
 
@@ -535,6 +550,8 @@ def execute(scenario: Dict) -> Dict:
         counters.inc("probe.forward_reference")
     if scenario.get("decoy"):
         counters.inc("probe.decoy_module")
+    if any(cl.get("role_of") and cl["name"] in members1 and cl["role_of"] in members1 for cl in scenario["classes"]):
+        counters.inc("probe.role_with_role_taker_in_diagram")
     counters.inc("ops", len(scenario["ops"]))
     counters.inc("runs")
     nontrivial = len(truth["edges"]) >= 1 and len(scenario["ops"]) >= 1
@@ -567,7 +584,7 @@ def shrink_candidates(sc: Dict):
     names = [cl["name"] for cl in sc["classes"]]
     for ci in range(len(sc["classes"]) - 1, -1, -1):
         nm = names[ci]
-        referenced = any(nm in cl["bases"] for cl in sc["classes"]) or any(f["target"] == nm for cl in sc["classes"] for f in cl["fields"])
+        referenced = any(nm in cl["bases"] or cl.get("role_of") == nm for cl in sc["classes"]) or any(f["target"] == nm for cl in sc["classes"] for f in cl["fields"])
         if not referenced and len(sc["classes"]) > 2:
             c = copy.deepcopy(sc)
             del c["classes"][ci]
